@@ -17,6 +17,7 @@ import (
 
 	"verif/checks/jt"
 	"verif/engine/core"
+	"verif/ref/poolpoison"
 	"verif/ref/tbin"
 )
 
@@ -190,6 +191,10 @@ func (s *scen) run() core.Result {
 		r.Class = "panic"
 		r.Add(fmt.Sprintf("j2t.Do|%s|%s|panic@%s:%s", s.op, s.trigger, pi.Site, core.PanicClass(pi.Val)), "doc %s\npanic: %.300s\n%.1500s", clip(s.doc, 300), pi.Val, pi.Stack)
 		return r
+	}
+	if cerr == nil && poolpoison.Aliased(out) {
+		r.Class = "violation"
+		r.Add(fmt.Sprintf("j2t.Do|%s|result-aliases-pooled-buffer", s.op), "trigger %s, options %s: the %d bytes returned by Do change when the buffers in the converters' pool are overwritten\ndoc %s", s.trigger, s.optName, len(out), clip(s.doc, 300))
 	}
 	if oc, det := s.judge(out, cerr); oc != "" {
 		r.Class = "violation"
